@@ -556,7 +556,8 @@ class Report(object):
         self.info.append({"rule": rule, "text": text, "location": location})
 
     def count(self, rule):
-        return sum(1 for o in self.obligations if o["rule"] == rule)
+        """obligations of `rule` that were decided (an obligation left `unresolved` does not count towards a floor)"""
+        return sum(1 for o in self.obligations if o["rule"] == rule and o["verdict"] != "unresolved")
 
 
 # ---------------------------------------------------------------------- roles of private anchors
